@@ -529,6 +529,10 @@ func main() {
 										if wasFailed && obs.Err == "" && o.Kind != "Grow" && o.Kind != "ReadFrom" && o.Kind != "ReadFromErr" {
 											return explore.Failf("later-call-succeeds-after-failure:"+o.Kind, "%s returned nil after the destination failed", o)
 										}
+										if wasFailed && obs.Err != "" && obs.Err != env.ErrInjected.Error() && (o.Kind == "Write" || o.Kind == "WriteThrough" || o.Kind == "FlushFragment" || o.Kind == "Flush") {
+											// "reports the error": the destination's, not some other complaint
+											return explore.Failf("later-call-reports-another-error:"+o.Kind, "%s returned %q after the destination had failed with %q", o, obs.Err, env.ErrInjected.Error())
+										}
 										if !wasFailed && d.Failed && obs.Err == "" && o.Kind != "Grow" && o.Kind != "ReadFromErr" {
 											return explore.Failf("failing-call-reports-nil:"+o.Kind, "%s returned nil although the destination failed during it", o)
 										}
